@@ -1,6 +1,8 @@
 import Martian.Lemmas.Proxy
 import Martian.Lemmas.ProxyTrace
 import Martian.Lemmas.ProxyState
+import Martian.Model.ProxyWire
+import Martian.Lemmas.HttpSpec
 /-!
 C02 — "a modifier error never aborts the exchange - it is surfaced as a Warning header on the
 message and processing continues": for **every error value**. `ErrVal` lists the kinds of values a
@@ -22,6 +24,8 @@ def setErr (v : ErrVal) : Item → Item
       (match rs with | .err _ => .err v | r => r)
   | .connectBlind d rq rs => .connectBlind d (match rq with | .err _ => .err v | .errSkip _ => .errSkip v | q => q)
       (match rs with | .err _ => .err v | r => r)
+  | .connectMitmFail rq rs => .connectMitmFail (match rq with | .err _ => .err v | .errSkip _ => .errSkip v | q => q)
+      (match rs with | .err _ => .err v | r => r)
 
 /-- The same item with modifiers that return nil instead of an error. -/
 def noErr : Item → Item
@@ -30,6 +34,8 @@ def noErr : Item → Item
   | .connectMitm t rq rs => .connectMitm t (match rq with | .err _ => .pass | .errSkip _ => .skip | q => q)
       (match rs with | .err _ => .pass | r => r)
   | .connectBlind d rq rs => .connectBlind d (match rq with | .err _ => .pass | .errSkip _ => .skip | q => q)
+      (match rs with | .err _ => .pass | r => r)
+  | .connectMitmFail rq rs => .connectMitmFail (match rq with | .err _ => .pass | .errSkip _ => .skip | q => q)
       (match rs with | .err _ => .pass | r => r)
 
 /-- Drop the Warning events of the two modifier sides. -/
@@ -57,6 +63,7 @@ theorem handle_ignores_error_value (sd : Bool) (s : St) (i c : Nat) (v : ErrVal)
   | x rc rq rs org => cases rq <;> cases rs <;> simp [setErr, handleItem, handleX, pre, rqErr, rqSkip, rsErr]
   | connectMitm t rq rs => cases rq <;> cases rs <;> simp [setErr, handleItem, handleMitm, pre, rqErr, rqSkip, rsErr]
   | connectBlind d rq rs => cases rq <;> cases rs <;> simp [setErr, handleItem, handleBlind, pre, rqErr, rqSkip, rsErr]
+  | connectMitmFail rq rs => cases rq <;> cases rs <;> simp [setErr, handleItem, handleMitmFail, pre, rqErr, rqSkip, rsErr]
 
 /-- **Whatever value a modifier's error is, the connection behaves the same**: replacing every
 modifier error of a script by any one value `v` - `io.EOF`, a timeout, … - leaves the whole trace
@@ -84,6 +91,8 @@ theorem handle_error_only_adds_warning (sd : Bool) (s : St) (i c : Nat) (it : It
   | connectBlind d rq rs =>
     cases rq <;> cases rs <;> cases d <;>
       simp [noErr, handleItem, handleBlind, pre, rqErr, rqSkip, rsErr, stripWarn, List.filter_cons]
+  | connectMitmFail rq rs =>
+    cases rq <;> cases rs <;> simp [noErr, handleItem, handleMitmFail, pre, rqErr, rqSkip, rsErr, stripWarn, List.filter_cons]
 
 /-- **A modifier error only adds the Warning; processing continues**: the trace of a connection whose
 modifiers return errors is, Warning events aside, the trace of the same connection with modifiers
@@ -102,6 +111,24 @@ theorem modifier_errors_only_add_warnings (sd : Bool) (base : Nat) (s : St) (i :
     | again s' => simp only [stripWarn_append, h1, ih]
     | close => rw [List.append_assoc, stripWarn_append, h1, stripWarn_tail, List.append_assoc]
     | hijack => rw [List.append_assoc, stripWarn_append, h1, stripWarn_tail, List.append_assoc]
+
+/-! ### The Warning itself: `proxyutil.Warning` on any header -/
+
+open Martian.Go Martian.Go.Header Martian.Proxy.Wire in
+/-- **Every modifier error becomes a Warning header, whatever the message looks like**: for every
+header - any Date (valid, invalid, empty, absent, repeated), Warnings of others already present,
+anything else - `proxyutil.Warning` adds exactly one value to `Warning`, after the existing ones. -/
+theorem warning_is_added_whatever_the_headers (value : Bytes → Bytes → Bytes) (h : Go.Header) (msg now : Bytes) :
+    ∃ v, values (puWarning value h msg now) kWarning = values h kWarning ++ [v] := by
+  refine ⟨value msg (if get h kDate == [] then now else get h kDate), ?_⟩
+  simp only [puWarning, values, add, Martian.HttpSpec.index_assign, if_true]
+
+open Martian.Go Martian.Go.Header Martian.Proxy.Wire in
+/-- … and it touches no other header. -/
+theorem warning_leaves_other_headers_alone (value : Bytes → Bytes → Bytes) (h : Go.Header) (msg now k : Bytes)
+    (hk : canonKey k ≠ canonKey kWarning) :
+    values (puWarning value h msg now) k = values h k := by
+  simp only [puWarning, values, add, Martian.HttpSpec.index_assign, hk, if_false]
 
 /-! Non-vacuity (tests): the quantification over values includes closeable ones, and the script
 below has an `io.EOF` from the request modifier followed by a served request. -/
